@@ -14,15 +14,15 @@ def emits(tr):
     for r in tr:
         if r["e"] == "send_int" and r["tick"]["k"] == "add":
             out.append({"e": "emit", "uid": r["tick"]["uid"], "ty": r["tick"]["ty"], "target": r["tick"]["target"],
-                        "seq": r["seq"], "run": r["run"], "t": r["t"]})
+                        "seq": r["seq"], "run": r["run"], "t": r["t"], "ext": False})
         elif r["e"] == "send_ext" and r.get("ok"):
             out.append({"e": "emit", "uid": r["uid"], "ty": r["ty"], "target": r["target"], "seq": r["seq"],
-                        "run": r["run"], "t": r["t"]})
+                        "run": r["run"], "t": r["t"], "ext": True})
         elif r["e"] == "step_end" and r["how"].startswith("ret:"):
             out.append({"e": "emit", "uid": "%s>%s" % (r["uid"], r["step"]), "ty": r["how"][4:], "target": "*",
-                        "seq": r["seq"], "run": r["run"], "t": r["t"]})
-        elif r["e"] == "cmd" and r["cmd"][0] == "start":
-            out.append({"e": "emit", "uid": r["cmd"][1], "ty": "Start", "target": "*", "seq": r["seq"], "run": r["run"] + 1,
+                        "seq": r["seq"], "run": r["run"], "t": r["t"], "ext": False})
+        elif r["e"] == "cmd" and r["cmd"][0] == "start" and r["run"] == 1:      # (a resumed run gets no StartEvent)
+            out.append({"e": "emit", "uid": r["cmd"][1], "ty": "Start", "target": "*", "seq": r["seq"], "run": r["run"], "ext": False,
                         "t": r["t"]})
         elif r["e"] in ("step_start", "wait_ret", "drained") or (r["e"] == "pub" and r["p"]["k"] == "unhandled"):
             out.append(r)
@@ -53,6 +53,10 @@ def resumed_items(chk):
 
 def run(chk):
     items = eg.collect(chk, ["routing", "fanout"]) + resumed_items(chk)
+    # equal-valued events waiting in the queue of a saturated step (every one of them is an event of its own)
+    items += eg.collect(chk, ["equal_events"], paths_q=6, walks_q=2, paths_t=40, walks_t=10)
+    # waiters nobody else accepts the answer of: a second answer while the woken step is still running is an orphan
+    items += eg.collect(chk, ["wait"], paths_q=12, walks_q=3, paths_t=80, walks_t=20, max_ext=3)
     items2 = [(l, p, e, emits(tr), s) for (l, p, e, tr, s) in items]
     eg.conform_reducer(chk, items)
     eg.standard_run(chk, "C02", None, {"emit", "step_start", "step_end", "wait_ret", "drained", "pub"}, extra=extra,
